@@ -37,6 +37,13 @@ Proof. exact blank_five. Qed.
 Theorem C05_product_path_total : forall chk ws, (length ws <= 5)%nat -> exists v, not_unique chk ws = Ok v.
 Proof. exact not_unique_total. Qed.
 
+(* historical: the search of the pinned tree before the repair (fix: commit 556f3b1) panicked on key 0 in both
+   build profiles *)
+Theorem C05_unrepaired_refuted :
+  fip_loop_unrepaired FIP_FUEL true 0 0 4887 = Panic /\ fip_loop_unrepaired FIP_FUEL false 0 0 4887 = Panic /\
+  find_in_products true 0 = Ok 0 /\ find_in_products false 0 = Ok 0.
+Proof. exact unrepaired_refuted. Qed.
+
 (* non-vacuity: the default hands, and a hand of five deuces in two suits (product 32 < PRODUCTS[0]) *)
 Example C05_example :
   Slots 5 [0; 0; 0; 0; 0] /\ hand_rank_value true [0; 0; 0; 0; 0] = Ok 0 /\
@@ -52,3 +59,4 @@ Print Assumptions C05_search_total.
 Print Assumptions C05_rank_total.
 Print Assumptions C05_blank_five.
 Print Assumptions C05_product_path_total.
+Print Assumptions C05_unrepaired_refuted.
